@@ -34,7 +34,7 @@ class F(Core.Component):
 
 
 TYPES = {'X': X, 'Y': Y, 'Z': Z, 'F': F}
-CLASSES = ['Agent', 'A', 'A1', 'B', 'Environment', 'E', 'H', 'R', 'R1']
+CLASSES = ['Agent', 'A', 'A1', 'B', 'Environment', 'E', 'H', 'R', 'R1', 'Fac', 'FC']
 
 META = {
     'rule': 'BFS over class-level histories on a fresh hierarchy; full read-back of every class and instance creation '
@@ -59,7 +59,7 @@ class World:
 
 class Harness:
     def __init__(self, op_classes=None, op_types=('X', 'Y'), subclassing=True, extras=False):
-        self.op_classes = list(op_classes or [c for c in CLASSES if c not in ('R', 'H')])      # R, H: checked, not operated on
+        self.op_classes = list(op_classes or [c for c in CLASSES if c not in ('R', 'H', 'Fac')])      # R, H: checked, not operated on
         self.op_types = list(op_types)
         self.subclassing = subclassing
         self.extras = extras      # components owned by a second model, the first model finishing, cloned classes
@@ -116,8 +116,19 @@ class Harness:
         class R1(R):
             pass
 
+        class Fac(Core.Agent):
+            """A parent class whose __new__ is a factory: asked for a 'child...' it hands out an instance of FC."""
+
+            def __new__(cls, id, *a, **k):
+                if cls is Fac and str(id).startswith('child'):
+                    return super().__new__(FC)
+                return super().__new__(cls)
+
+        class FC(Fac):
+            pass
+
         w.cls = {'Agent': Core.Agent, 'A': A, 'A1': A1, 'B': B, 'Environment': Core.Environment, 'E': E, 'H': H,
-                 'R': R, 'R1': R1, 'SpaceWorld': Envs.SpaceWorld}
+                 'R': R, 'R1': R1, 'Fac': Fac, 'FC': FC, 'SpaceWorld': Envs.SpaceWorld}
         # the model already has inhabitants, and its environment carries a tag of its own
         w.model.environment.add_agent(Core.Agent('resident', w.model))
         w.model.environment.tag = 2
@@ -233,11 +244,16 @@ class Harness:
             # an instance created just before the default changes keeps the default it was created under - also when
             # nobody looked at its tag in the meantime
             if c != 'SpaceWorld':
-                sleeper = cls(w.model) if issubclass(cls, Core.Environment) else cls('sleeper', w.model)
+                sleeper = cls(w.model) if issubclass(cls, Core.Environment) else cls(f'sleeper{len(w.sleepers)}', w.model)
                 w.sleepers.append((sleeper, ref['tag'], c))
             cls.tag = op[2]
             ref['tag'] = op[2]
             w.last = ('tag', op[2])
+
+    @staticmethod
+    def _class_view(w):
+        # what every class shows through its public interface (cheap: no full-field canon)
+        return [(c, [(t.__name__, id(o)) for t, o in k.components.items()], k.tag) for c, k in w.cls.items()]
 
     def _rejected(self, w, call, exc, what):
         before = self.canon(w)
@@ -250,7 +266,17 @@ class Harness:
         raise Violation(f'{what}: accepted', expected=exc.__name__, observed='no exception')
 
     def check(self, w):
+        grid = Envs.SpaceWorld(w.model, 2, 2, 0)      # one spatial world per check: agents placed in it keep their tags
+        made = w.cls['Fac']('child-1', w.model)
+        if type(made) is not w.cls['FC'] or made.tag != w.ref['FC']['tag']:
+            raise Violation(f'an instance of FC obtained through its parent\'s factory (Fac("child-1", model)) has tag '
+                            f'{made.tag}; the default tag of ITS class is {w.ref["FC"]["tag"]}', expected=w.ref['FC']['tag'],
+                            observed=made.tag)
         for inst, tag, c in w.sleepers:
+            if not isinstance(inst, Core.Environment):
+                # placing an agent in a spatial world has no bearing on its tag
+                if grid.get_agent(inst.id) is None and Envs.PositionComponent not in inst:
+                    grid.add_agent(inst, 0, 0)
             if inst.tag != tag:
                 raise Violation(f'an instance of {c} created without a tag while the class default was {tag} shows tag '
                                 f'{inst.tag} after the default was changed', expected=tag, observed=inst.tag)
@@ -301,17 +327,22 @@ class Harness:
                 raise Violation(f'{what}: a new instance starts with class components', observed=len(inst))
             if not is_env:
                 for t in (7, 0, np.int64(7), np.uint8(0), np.int32(5)):
-                    i2 = cls('j', w.model, tag=t)
+                    i2 = cls(f'j-{c}-{t!r}', w.model, tag=t)
                     if i2.tag != t:
                         raise Violation(f'{what}: explicit tag {t!r} lost', expected=int(t), observed=i2.tag)
+                    if c != 'Fac':
+                        grid.add_agent(i2, 1, 1)
+                        if i2.tag != t:
+                            raise Violation(f'{what}: explicit tag {t!r} lost when the agent was placed in a spatial world',
+                                            expected=int(t), observed=i2.tag)
                 i3 = cls('k', w.model, t)
                 if i3.tag != t:
                     raise Violation(f'{what}: positional tag {t} lost', expected=t, observed=i3.tag)
-            before = self.canon(w)
+            before = self._class_view(w)
             ic = Z(inst, w.model)
             inst.add_component(ic)
             inst.add_component(X(inst, w.model))
-            if self.canon(w) != before or (Z in cls) or cls[Z] is not None:
+            if self._class_view(w) != before or (Z in cls) or cls[Z] is not None:
                 raise Violation(f'{what}: an instance-level component became visible on the class')
             if inst[Z] is not ic or len(inst.components) != 2:
                 raise Violation(f'{what}: instance components disturbed by the class store')
